@@ -28,9 +28,8 @@ META = {
                   "Go modules with -protoc-path pointing at a recording stub and judging every recorded "
                   "argv inside Coq against both the model and the tree-level specification.",
     "level_note": "Trusted: Coq kernel + vm_compute; model fidelity checked by correspondence, not "
-                  "proved; filepath.WalkDir/Abs/Rel/Join and os.ReadDir order; PackageNameFromPath "
-                  "as a per-directory oracle (cross-checked against go list and module path + relative "
-                  "directory); the line scan for 'option go_package =' on canonically spelled files; "
+                  "proved; filepath.WalkDir/Abs/Rel/Join and os.ReadDir order; module path + relative "
+                  "directory as the package oracle (PackageNameFromPath and go list cross-checked against it); the line scan for 'option go_package =' on canonically spelled files; "
                   "Go harness, stub and the argv parser in ProtoJudge.v. No axioms.",
 }
 
@@ -40,11 +39,13 @@ TRUSTED = [
     "protoFileHasGoPackage), tied by correspondence only",
     "path/filepath (WalkDir visiting order and SkipDir semantics, Abs, Rel, Join, Dir, Ext), os.ReadDir, "
     "os/exec passing argv unchanged",
-    "gencommon.PackageNameFromPath / packages.Load as an oracle recorded per directory; cross-checked in "
-    "the harness against `go list -e` and against module path + relative directory",
-    "the strings.Contains line scan for `option go_package =` is assumed to decide 'declares go_package' "
-    "(true for the canonical spelling the generators write; near-miss spellings run as an informational "
-    "out-of-domain stream)",
+    "the Go package of a directory = module path + relative directory (given to model and spec as the oracle); "
+    "gencommon.PackageNameFromPath / packages.Load and `go list -e` are compared with it in a helper process on "
+    "every built-in/corpus tree and every 4th generated tree (every tree in the thorough tier), and through the "
+    "tool's own calls in every run (a wrong package is a mapping difference)",
+    "the strings.Contains line scan for `option go_package =` is assumed to decide 'declares go_package' for the "
+    "canonical spelling, wherever the option sits in the file (10 positions generated, gating); near-miss "
+    "spellings run as an informational out-of-domain stream",
     "Go harness harness/cmd/c20 (tree generator, read-back of the tree from disk, CLI subprocess), the "
     "recording stub harness/cmd/c20stub, the argv classifier/parser of ProtoJudge.v (parse_arg)",
 ]
@@ -175,8 +176,8 @@ def run(ctx):
     else:
         plan = [("corpusfiles", None),
                 ("corpus", ["-mode", "corpus", "-flagsets", 8]),
-                ("random", ["-mode", "random", "-n", 600, "-flagsets", 8]),
-                ("edge", ["-mode", "edge", "-n", 400, "-flagsets", 8])]
+                ("random", ["-mode", "random", "-n", 400, "-flagsets", 8]),
+                ("edge", ["-mode", "edge", "-n", 250, "-flagsets", 8])]
     ood_future = pool.submit(ood_stream, ctx, tools, quick)
     terms, jsons, err = streams(ctx, tools, plan)
     if err:
